@@ -228,14 +228,16 @@ h("cont.H_OptionalFault", map[string]int{"rounds": 3, "order_schemes": 1}, map[s
 	hrace2 := hrace
 	hrace2.Quick = map[string]int{"ops": 1, "order_schemes": 1, "race": 1, "worlds": 1}
 	hrace2.Thorough = map[string]int{"ops": 2, "order_schemes": 1, "race": 1, "worlds": 1}
+	const g2Desc = "; G2 scheduling: on top of the switches at user callbacks, up to `g2` involuntary context switches, each placed by the solver in front of any mutex acquisition, atomic operation or sync.Map operation executed by godi's own code (vm.isSyncOp) - interleavings between two container-internal synchronisation operations; counterexamples are replayed natively on a runner built from instrumented copies of godi's current sources (gosym instrument: the same points call the baton)"
+	hg2 := h("cont.H_Conc", map[string]int{"ops": 1, "order_schemes": 1, "worlds": 1, "vars": 1, "g2": 1}, map[string]int{"ops": 1, "order_schemes": 1, "worlds": 4, "vars": 3, "g2": 1}, []string{"both_done"}, 0, concDesc+g2Desc)
 	hcb := h("cont.H_CloseInCallback", map[string]int{"order_schemes": 1}, map[string]int{"order_schemes": 2}, []string{"callback_closed"}, 10, cbDesc)
 	properties = append(properties,
-		propertySpec{ID: "C09", Harnesses: []harnessSpec{hc1, hcb, hrace, hrace2,
+		propertySpec{ID: "C09", Harnesses: []harnessSpec{hc1, hcb, hrace, hrace2, hg2,
 			h("cont.H_SharedCodeConc", map[string]int{"rounds": 2, "order_schemes": 1}, map[string]int{"rounds": 2, "order_schemes": 1}, []string{"both_done"}, 10, "(happens-before race detector on) scoped or transient services whose constructors share code - reflect.MakeFunc values of two different signatures (natively one code pointer, so the analysis cache keeps being rewritten after Build), or closures of one literal under two names with a yielding dependency - resolved alternately by two goroutines in their own scopes; every interleaving at the resolution boundaries; no race, no panic, no error, each service built by its own constructor"),
 		}},
 		propertySpec{ID: "C13", Harnesses: []harnessSpec{
 			h("cont.H_Closed", map[string]int{"order_schemes": 2}, map[string]int{"order_schemes": 4}, []string{"close_node", "cancel_scope_ctx", "cancel_child_ctx"}, 20, closedDesc),
-			hcb, hc,
+			hcb, hc, hg2,
 			h("cont.H_Dispose", with(dsp(0, 2, 4, 0, 1, 0, 1), "tree", 1), with(dsp(0, 2, 4, 1, 2, 0, 1), "tree", 1), dspCov, 0, dspDesc),
 		}},
 	)
